@@ -24,6 +24,7 @@ META = {
 }
 META["explanation"] += ' R03.2 treats Arc::try_unwrap as racy (two concurrent last releases can both fail; only Arc::into_inner is atomic); R19.6 / R19.7 are evaluated here: every owner handle releases its share exactly once and no field of a live handle is replaced (clone_from / mem::replace / assignment).'
 META["explanation"] += ' The eyeball poll typestate incl. re-arm pairing (R02.7) is evaluated here: polling again after the end answers None again.'
+META["explanation"] += ' R03.8 the close function stores the closed sentinel on every path to its return. Shared: R01.5 (the sentinel is written by close only; every initialiser of the metadata - also a derived Default - starts at a version that is not the sentinel) and R19.8 (no leaked share of the owner counter, else nobody is ever last).'
 
 
 def run(ctx):
@@ -104,6 +105,20 @@ def run(ctx):
     if counter is not None:
         c19.r19_6(ctx, counter)
         c19.r19_7(ctx, counter)
+        c19.r19_8(ctx, counter)   # a leaked share of the owner counter: nobody is ever the last owner
+    # R03.8 the close function marks the state closed on every path (no "nobody is parked" early return before the store)
+    cb = close_fn.built
+    stores = sorted({loc[0] for loc, s_ in assigns_to_field(cb, "version")})
+    ok = bool(stores) and cb.post_dominated_by(0, stores)
+    ctx.verdict(ok, "R03.8", close_fn, "close-marks-on-every-path", cb.line_at((stores[0], 0)) if stores else close_fn.loc(), "every path of `%s` stores the closed sentinel" % close_fn.name,
+                "`%s` can return without storing the closed sentinel: a subscriber that is not parked at that moment keeps waiting for an update that can never come" % close_fn.path)
+    # "never while an owning handle exists": the sentinel is written by close only, and no constructor starts at it
+    from . import c01
+    notify = find_notify_fn(F)
+    if notify and not getattr(ctx, "_in_r01_5", False):
+        ctx._in_r01_5 = True
+        c01.r01_5(ctx, c01.NotifySet(notify), closes[0], sentinel)
+        ctx._in_r01_5 = False
 
 
 def owner_counter_field(F):
